@@ -1068,7 +1068,7 @@ class ChannelFactory:
                 self.gateway._send(
                     Message.CHANNEL_CLOSE_ERROR, id, dumps_internal(errortext)
                 )
-                self._local_close(id, errortext)
+                self._local_close(id, RemoteError(errortext))
 
     def _finished_receiving(self) -> None:
         with self._writelock:
